@@ -380,7 +380,7 @@ def _reductions(ctx, p, rng):
                 if bad:
                     ctx.violation('sum:value:%s' % ('axis-none' if axis is None else ('axis-neg' if axis < 0 else 'axis-pos')), {'shape': shape, 'axis': axis, 'why': bad}); continue
                 ctx.ok('sum', ('sum', shape, axis, ent, D, P, vk))
-    for shape in [(3, 3), (2, 4), (1, 1)]:
+    for shape in [(3, 3), (2, 4), (1, 1), (4, 2), (3, 1), (1, 3), (5, 2)]:
         data = _vals(rng, (D, P) + shape, fin)
         ok, y = _try(ctx, 'trace', lambda: algopy.trace(UTPM(data.copy())))
         if ok:
